@@ -10,7 +10,8 @@ META = {
                    "hashes identifiers), and `Search(...) == DB[w]` is decided by z3 for all identifier values of the "
                    "profile on every path; all path trees are exhausted.",
     "bounds": {"keywords": "<= 3 (4 for boundary profiles)", "postings": "N <= 17", "identifier_size": "1..2 bytes",
-               "configs": "small block parameters: PiPack/PiPtr B,b in 1..3; Pi2Lev (B,b,B',b') in {1,2,3}^4 that pass "
+               "keys": "one key per index; plus two keys and two indexes on ONE scheme object with interleaved searches "
+               "(profiles [2,1]; thorough adds [1,3,2])", "configs": "small block parameters: PiPack/PiPtr B,b in 1..3; Pi2Lev (B,b,B',b') in {1,2,3}^4 that pass "
                           "its constructor; DP17 L in {1,2,3}, ratio in {0.2,0.5,1.0}; SSE-1 s in {8,16}; key sizes "
                           "16/24/32"},
     "outside_bounds": "default-size parameters (B=64, 8-byte identifiers) are reached only by the native replay; "
@@ -42,6 +43,31 @@ def h_present(P, S):
             got = PL.search(scheme, s, K, edb, w)
             if not PL.same(scheme, got, db[w]):
                 return S.fail("wrong-result")
+    return True
+
+
+def h_rekey(P, S):
+    """`for all keys K <- KeyGen` includes a later key of the SAME scheme object: two keys, two indexes (the second
+    database maps the same keywords to other lists), searches under both keys interleaved"""
+    scheme = P["scheme"]
+    PL.begin(P)
+    cfg = PL.small_config(scheme, P.get("over"))
+    db = PL.make_db(P, S, scheme, cfg, P["lens"])
+    mod, s, K1, edb1 = PL.build(scheme, cfg, db)
+    kws = list(db)
+    db2 = {kws[i]: list(db[kws[(i + 1) % len(kws)]]) for i in range(len(kws))}     # same keywords, rotated lists
+    K2 = s.KeyGen()
+    if P.get("twin"):
+        return False
+    for w in kws:                                    # tokens of the first key are issued before the second index exists
+        if not PL.same(scheme, PL.search(scheme, s, K1, edb1, w), db[w]):
+            return S.fail("wrong-result-first-key")
+    edb2 = s.EDBSetup(K2, db2)
+    for w in kws:
+        if not PL.same(scheme, PL.search(scheme, s, K2, edb2, w), db2[w]):
+            return S.fail("wrong-result-second-key")
+        if not PL.same(scheme, PL.search(scheme, s, K1, edb1, w), db[w]):
+            return S.fail("wrong-result-first-key-after-rekeying")
     return True
 
 
@@ -100,6 +126,13 @@ def obligations(tier, seed):
                 name = "c01.%s.cfg%d.%s" % (scheme, ci, "-".join(map(str, lens)))
                 obs.append(ob(name, "harness.c01", "h_present",
                               {"scheme": scheme, "over": over, "lens": lens, "seed": seed}, budget_s=240))
+    for scheme in PL.SCHEMES:
+        for lens in ([2, 1], [1, 3, 2]) if tier == "thorough" else ([2, 1],):
+            if _fits(scheme, {}, lens):
+                obs.append(ob("c01.rekey.%s.%s" % (scheme, "-".join(map(str, lens))), "harness.c01", "h_rekey",
+                              {"scheme": scheme, "over": {}, "lens": lens, "seed": seed}, budget_s=300))
+    obs.append(twin("c01.rekey.twin", "harness.c01", "h_rekey",
+                    {"scheme": "CGKO06.SSE1", "over": {}, "lens": [2, 1], "twin": True}))
     obs.append(twin("c01.twin", "harness.c01", "h_present",
                     {"scheme": "CJJ14.PiPack", "over": {}, "lens": [3, 2], "twin": True}))
     return obs
